@@ -28,7 +28,9 @@ Definition int_unk_chr (c : N) : bool :=
 Definition py_int (s : pstr) : intres :=
   if existsb int_unk_chr s then IntUnk else
   match s with
-  | 45%N :: r => if all_digits r then IntOk (- Z.of_N (digits_val r)) else IntFail
-  | 43%N :: r => if all_digits r then IntOk (Z.of_N (digits_val r)) else IntFail
-  | _ => if all_digits s then IntOk (Z.of_N (digits_val s)) else IntFail
+  | [] => IntFail
+  | c :: r =>
+    if N.eqb c 45 then (if all_digits r then IntOk (- Z.of_N (digits_val r)) else IntFail)
+    else if N.eqb c 43 then (if all_digits r then IntOk (Z.of_N (digits_val r)) else IntFail)
+    else if all_digits s then IntOk (Z.of_N (digits_val s)) else IntFail
   end.
